@@ -207,6 +207,17 @@ def generated_initial_states(tier):
                 if len(samples) < 6:
                     samples.append({"generated": name, "seed": seed, "enlarged_bounds": enlarge,
                                     "tensor_shape": list(env.current_state.tensor.shape)})
+    # all nine shipped files (up to 16 hosts, host ids >= 10, several public subnets): initial state vs file
+    from .family import SHIPPED_ALL, shipped_path, shipped_spec
+    for n in SHIPPED_ALL:
+        sc = nasim.load_scenario(shipped_path(n), name=n)
+        spec = shipped_spec(n)
+        env = NASimEnv(sc)
+        n_scen += 1
+
+        def rep(kind, detail, _n=n):
+            viol.append({"property": "C09", "kind": kind, "engine": "shipped_initial", "scenario_name": _n, "detail": detail})
+        n_rows += check_initial(rep, spec, sc, env, Layout(spec))
     return viol, n_rows, n_scen, samples
 
 
@@ -241,6 +252,15 @@ def run(pid, tier):
 
 
 def replay(pid, rec):
+    if rec.get("engine") == "shipped_initial":
+        nasim = import_nasim()
+        from nasim.envs import NASimEnv
+        from .family import shipped_path, shipped_spec
+        n = rec["scenario_name"]
+        sc = nasim.load_scenario(shipped_path(n), name=n)
+        out = []
+        check_initial(lambda k, d: out.append({"kind": k, "detail": d}), shipped_spec(n), sc, NASimEnv(sc), Layout(shipped_spec(n)))
+        return out
     if rec.get("engine") == "generated_initial":
         nasim = import_nasim()
         from nasim.envs import NASimEnv
